@@ -28,6 +28,13 @@ func isBool(v value) bool {
 	return ok
 }
 
+// isBlock tells a block value, as read from a field holding a closed child block.
+// Two of them cannot be compared: a Block holds a map.
+func isBlock(v value) bool {
+	_, ok := v.(Block)
+	return ok
+}
+
 func isFalsey(v value) bool {
 	switch x := v.(type) {
 	case bool:
